@@ -233,7 +233,7 @@ def check(pid, tier, runs=None, budget_s=None, base_seed=None):
     recdir = tempfile.mkdtemp(prefix="rec-%s-" % pid, dir=WORK)
     seed0 = (base_seed << 32) & 0xFFFFFFFFFFFFFFFF
     chunk = cfg.get("chunk", 20)
-    timeout_s = cfg.get("run_timeout_s", 60)
+    timeout_s = cfg.get("run_timeout_s", 120)   # real-time safety net only; liveness is decided by step budgets
     workers = cfg.get("workers", max(2, NCPU - 2))
     tparams = {"tier": 1 if tier == "thorough" else 0}
     tparams.update(cfg.get("params", {}))
@@ -317,6 +317,31 @@ def check(pid, tier, runs=None, budget_s=None, base_seed=None):
                 known_hit.setdefault(kf["key"], kf)
             else:
                 viol_sigs.setdefault((r["_job"], "known-unlisted|%s|" % key), []).append(dict(r, verdict="violation", **{"class": "known-unlisted", "oracle": key, "msg": txt}))
+    # A run killed by the real-time watchdog has only a truncated record (replaying it continues on the canonical policy, which
+    # is not the run's schedule), so it is judged by running its SEED again in a fresh process with five times the limit:
+    # the execution is the same; if it completes, the first run was merely slow (loaded machine) and is not an alarm, if it ends
+    # in a violation, that violation (with its complete record) takes its place.
+    for (ji, sig) in [k for k in viol_sigs if k[1].startswith("hang|engine.watchdog")]:
+        rs = viol_sigs.pop((ji, sig))
+        for r in rs[:3]:
+            j = jobs[ji]
+            params = dict(tparams); params.update(j.get("params", {}))
+            pr = run_chunk(exes[ji], r["seed"], 1, params, recdir, j.get("args", ()), timeout_s * 5)
+            out, _ = pr.communicate()
+            q = None
+            for line in out.splitlines():
+                try:
+                    q = json.loads(line)
+                except ValueError:
+                    continue
+            if q is None:
+                log("[%s] re-run of watchdog-killed seed %s produced no result" % (pid, r["seed"])); rc = max(rc, 2); continue
+            if q["verdict"] == "ok":
+                log("[%s] seed %s hit the real-time watchdog (%ds) but completes in %.0f s when run again: slow run, not an alarm" % (pid, r["seed"], timeout_s, q.get("wall_ms", 0) / 1000.0))
+                det["watchdog_timeouts_completed_on_rerun"] = det.get("watchdog_timeouts_completed_on_rerun", 0) + 1
+                continue
+            q["_job"] = ji
+            viol_sigs.setdefault((ji, signature(q)), []).append(q)
     for (ji, sig), rs in sorted(viol_sigs.items(), key=lambda kv: kv[0][1]):
         if sig.startswith("known-unlisted|"):
             # the harness reported a tolerated-known signature that the committed file does not list
